@@ -330,6 +330,57 @@ def independence_scenario():
         p.undo()
 
 
+def independence_scenario3():
+    """... also while a third thread is queued on the busy object: thread 0 sits inside a call on `a`, thread 2 waits
+    for `a`'s lock, and thread 1 must still run a whole call on `b` (no global lock may be held while waiting)"""
+    p = Patch()
+    sched, om = p.sched, p.om
+    try:
+        class Box:
+            def __init__(self):
+                self.x = 0
+
+            @om.synchronized
+            def bump(self, t):
+                sched.point("body-read")
+                v = self.x
+                sched.point("body-write")
+                self.x = f(t, v)
+        a, b = Box(), Box()
+        sched.spawn(0, lambda: a.bump(0))
+        sched.spawn(2, lambda: a.bump(2))
+        sched.spawn(1, lambda: b.bump(1))
+        for _ in range(30):                      # thread 0 up to the middle of its body
+            if sched.waiting.get(0, ("",))[0] == "body-write":
+                break
+            sched.grant(0)
+        for _ in range(30):                      # thread 2 up to the point where it waits for a held lock
+            label, lock = sched.waiting[2]
+            if label.endswith("-acquire") and lock is not None and lock.owner is not None:
+                break
+            sched.grant(2)
+        else:
+            raise Violation("C17", "a second call on a busy object was not made to wait", {"tag": "overlap"})
+        for _ in range(60):
+            if 1 in sched.finished:
+                break
+            label, lock = sched.waiting[1]
+            if label.endswith("-acquire") and lock is not None and lock.owner is not None:
+                raise Violation("C17", f"a call on one object is blocked ({label} held by thread {lock.owner}) while another thread is merely "
+                                       "waiting for a different, busy object", {"tag": "cross-blocking"})
+            sched.grant(1)
+        if 1 not in sched.finished or b.x != f(1, 0):
+            raise Violation("C17", "a call on a second object did not complete while a thread was queued on the first, busy object", {"tag": "cross-blocking"})
+        while 0 not in sched.finished:
+            sched.grant(0)
+        while 2 not in sched.finished:
+            sched.grant(2)
+        if a.x != f(2, f(0, 0)):
+            raise Violation("C17", "queued call lost or applied out of order", {"tag": "lost-update"})
+    finally:
+        p.undo()
+
+
 def oracle_scenario(sseed):
     """real oracles driven from several scheduled threads: the result must equal some sequential order"""
     from harness import gen
@@ -399,11 +450,12 @@ def run(seed, tier, n=None):
     n = n or (200 if tier == "quick" else 4000)
     R = random.Random(seed ^ 0xC17)
     lines, tails, docs = [], [], []
-    try:
-        independence_scenario()
-        res.hist["independence"] += 1
-    except Violation as v:
-        res.violations.append({"pid": v.pid, "what": v.what, "sig": v.sig, "replay": {"suite": "sync", "seed": 0, "independence": True}})
+    for fn in (independence_scenario, independence_scenario3):
+        try:
+            fn()
+            res.hist["independence"] += 1
+        except Violation as v:
+            res.violations.append({"pid": v.pid, "what": v.what, "sig": v.sig, "replay": {"suite": "sync", "seed": 0, "independence": True}})
     for i in range(n):
         sseed = R.randrange(1 << 30)
         res.scenarios += 1
@@ -445,6 +497,7 @@ def replay(doc):
     try:
         if doc.get("independence"):
             independence_scenario()
+            independence_scenario3()
             return res
         if doc.get("oracle"):
             oracle_scenario(doc["seed"])
